@@ -22,10 +22,10 @@ impl Check for C03 {
     fn phases(&self, tier: Tier, b: f64) -> Vec<Phase> {
         let q = tier == Tier::Quick;
         vec![
-            Phase { name: "random tuples (context, body protected [built|wire], signer protected, AAD, payload) through every Sig_structure-producing helper", cases: scale(if q { 3000 } else { 150000 }, b), exhaustive: false },
+            Phase { name: "random tuples (context, body protected [built|wire], signer protected, AAD, payload) through every Sig_structure-producing helper", cases: scale(if q { 12000 } else { 150000 }, b), exhaustive: false },
             Phase { name: "length-class grid: each of AAD / payload at 0,1,22-25,254-257,65534-65537 (and the 16x16 product in thorough)", cases: if q { 2 * 16 } else { 2 * 16 + 256 }, exhaustive: true },
-            Phase { name: "messages decoded from non-canonical wire forms (Sign1 and 1-3-signer Sign, embedded and detached)", cases: scale(if q { 6000 } else { 300000 }, b), exhaustive: false },
-            Phase { name: "adversarial near-collisions: bytes moved across adjacent slots, body/signer swapped, empty vs absent signer header", cases: scale(if q { 1500 } else { 60000 }, b), exhaustive: false },
+            Phase { name: "messages decoded from non-canonical wire forms (Sign1 and 1-3-signer Sign, embedded and detached)", cases: scale(if q { 24000 } else { 300000 }, b), exhaustive: false },
+            Phase { name: "adversarial near-collisions: bytes moved across adjacent slots, body/signer swapped, empty vs absent signer header", cases: scale(if q { 6000 } else { 60000 }, b), exhaustive: false },
         ]
     }
     fn run_case(&self, ctx: &mut Ctx, phase: usize, idx: u64) {
